@@ -21,8 +21,10 @@ svars == <<prog, res, cut, entry, sess>>
 \* (the cut decides which consecutive items share a file; the files are named so that LATER
 \* items sort EARLIER), evaluated with EvalPath on the directory. The meaning of a package does
 \* not depend on how its declarations are spread over files: same prediction as "whole-*".
+\* "path-then-eval" / "path-then-compile": the declarations are a file evaluated with EvalPath, the
+\* statements of main follow as chunks through Eval (Compile + Execute): entry points may be mixed.
 Entries == {"eval", "compile-execute", "whole-eval", "whole-compile-ast", "whole-evalpath-mapfs", "whole-evalpath-disk",
-            "files-evalpath-mapfs", "files-evalpath-disk"}
+            "files-evalpath-mapfs", "files-evalpath-disk", "path-then-eval", "path-then-compile"}
 
 NItems(p) == NDecl + Len(p.main)
 
